@@ -13,7 +13,7 @@ def run(c):
         return
     _, ev2 = pc.enumerate_programs(c, "C01", 5 if c.quick else 6, ["sum", "lt"], "holes", holes=True, every=40 if c.quick else 200)
     n = 1 if c.quick else 12
-    ev3 = pc.generated(c, "C01", [("corpus", 0), ("perturb", 300 * n), ("punch", 300 * n), ("hopunch", 0), ("typed", 250 * n, 3), ("typelevel", 0), ("crossop", 0), ("deforder", 300 * n), ("alias", 100 * n), ("recursion", 40 * n, 10), ("groups", 200 * n), ("lettypes", 0), ("holeparam", 0), ("deforder3", 0 if not c.quick else 380), ("holescope", 500 * n)])
+    ev3 = pc.generated(c, "C01", [("corpus", 0), ("perturb", 300 * n), ("punch", 300 * n), ("hopunch", 0), ("typed", 250 * n, 3), ("typelevel", 0), ("crossop", 0), ("deforder", 300 * n), ("alias", 100 * n), ("recursion", 40 * n, 10), ("groups", 200 * n), ("lettypes", 0), ("holeparam", 0), ("deforder3", 0 if not c.quick else 380), ("holescope", 500 * n), ("holedef", 0)])
     allp = pc.validate(c, "C01", [ev1, ev2, ev3], "events")
 
     def mut(ev):
